@@ -96,7 +96,9 @@ func (r *Reconnector) Schedule(addr string) {
 func (r *Reconnector) attemptReconnect(addr string) {
 	r.mu.Lock()
 	state, exists := r.states[addr]
-	if !exists || r.closed {
+	if !exists || r.closed || r.paused {
+		// A timer that fired just before Pause() must not start an attempt
+		// while paused. State is preserved for Resume().
 		r.mu.Unlock()
 		return
 	}
@@ -123,6 +125,11 @@ func (r *Reconnector) attemptReconnect(addr string) {
 	}
 
 	if err != nil {
+		if r.paused {
+			// Paused while the attempt was in flight: do not re-arm.
+			// State is preserved; Schedule() re-arms after Resume().
+			return
+		}
 		// Reschedule if still within limits
 		if r.cfg.MaxAttempts == 0 || state.attempts < r.cfg.MaxAttempts {
 			delay := r.addJitter(state.nextDelay)
